@@ -90,7 +90,7 @@ def body(case, stats):
 
 def worker(widx, seed, tier, stats):
     n = {'quick': 300, 'thorough': 6000}[tier]
-    opts = gen.GenOpts(avoid=common.avoid_set(ID), tail_focus=6, alias_focus=8, block_focus=8, rich_size_exprs=True)
+    opts = gen.GenOpts(avoid=common.avoid_set(ID), tail_focus=6, alias_focus=8, block_focus=8, rich_size_exprs=True, oddunion_focus=8, smallopt_focus=8)
     runner.run_given(gen.schema_with_values(opts), body, seed, n, stats)
     if opts.avoid and widx < 2:
         runner.run_given(gen.schema_with_values(gen.GenOpts()), body, seed + 1, max(n // 4, 50), stats)
